@@ -305,6 +305,8 @@ def sweep_case(case):
     rec['running_after'] = state['executing'] > 0
     rec['finished_before_return'] = state['end'] is not None and state['end'] <= t_ret
     rec['elapsed_ms'] = int((t_ret-t_start)*1000)
+    # when the function body really ended, measured from the start of the call (-1: it had not ended when the call returned)
+    rec['ended_ms'] = int((state['end']-t_start)*1000) if (state['end'] is not None and state['end'] <= t_ret) else -1
     try:
         t0 = time.time()
         while time.time()-t0 < 0.02:
